@@ -1,154 +1,308 @@
-//! C04 — native-field gadgets are complete and sound (catalogue driver: engines/catalogue.rs).
-//! Seed catalogue (is_equal_to_fixed, is_zero, lower_than, mul); extended per instruction trait.
+//! C04 — native-field gadgets are complete and sound w.r.t. their mathematical meaning.
+//!
+//! Catalogue driver: one `Entry` (c04_ops/entry.rs) per method of the instruction traits in
+//! `circuits/src/instructions/` as implemented on `ZkStdLib` for natives, bits, bytes, bounded
+//! values, vectors and the map gadget. Per (entry, input) `engines::catalogue::check_op` does
+//! completeness, output edits, out-of-domain and the single-position adversarial repair search;
+//! `c04_ops/attacks.rs` adds multi-position attacks (alternative encodings, cross-input claims,
+//! out-of-domain inputs at the constraint level). Operand classes: c04_ops/cat.rs.
 
-use std::collections::BTreeMap;
-
-use ff::{Field, PrimeField};
-use midnight_circuits::instructions::*;
-use midnight_circuits::types::{AssignedBit, AssignedNative};
-use midnight_curves::Fq as F;
-use midnight_proofs::{
-    circuit::{Layouter, Value},
-    plonk::Error,
+use std::{
+    collections::{BTreeMap, BTreeSet},
+    sync::{
+        atomic::{AtomicUsize, Ordering},
+        Mutex,
+    },
 };
-use midnight_zk_stdlib::ZkStdLib;
-use mzv::{common::*, engines::catalogue::*};
-use num_bigint::BigUint;
-use rand::Rng;
 
-fn big(f: &F) -> BigUint {
-    BigUint::from_bytes_le(f.to_repr().as_ref())
-}
-fn bit(b: bool) -> F {
-    if b {
-        F::ONE
-    } else {
-        F::ZERO
-    }
-}
+use mzv::{
+    common::*,
+    engines::{ars::ArsBudget, catalogue::*},
+};
+use serde_json::json;
 
-#[derive(Clone)]
-struct IsEqFixed(u64);
-impl OpSpec for IsEqFixed {
-    type In = F;
-    fn name(&self) -> String {
-        format!("is_equal_to_fixed[{}]", self.0)
-    }
-    fn synth(&self, s: &ZkStdLib, l: &mut impl Layouter<F>, x: Value<F>) -> Result<(), Error> {
-        let x: AssignedNative<F> = s.assign(l, x)?;
-        s.constrain_as_public_input(l, &x)?;
-        let b: AssignedBit<F> = s.is_equal_to_fixed(l, &x, F::from(self.0))?;
-        s.constrain_as_public_input(l, &b)
-    }
-    fn reference(&self, x: &F) -> Option<Vec<F>> {
-        Some(vec![*x, bit(*x == F::from(self.0))])
-    }
-    fn n_input_positions(&self, _: &F) -> usize {
-        1
-    }
-}
+#[path = "c04_ops/attacks.rs"]
+mod attacks;
+#[path = "c04_ops/cat.rs"]
+mod cat;
+#[path = "c04_ops/entry.rs"]
+mod entry;
+
+use attacks::{run_extra, ExtraStats};
+use entry::{Entry, Kind, V};
+
+/// operations of the instruction traits that cannot be reached from outside the crates through
+/// `ZkStdLib` (no public field / accessor leads to the implementing chip)
+const UNREACHABLE: &[&str] = &[
+    "Pow2RangeInstructions::assert_values_lower_than_2_pow_n (implemented by Pow2RangeChip; ZkStdLib keeps core_decomposition_chip private and has no accessor; exercised indirectly by every range check)",
+    "AssignedVector buffer/len cells (pub(crate), no accessor): vector contents are observed through get_limits, padding_flag and the off-circuit InnerValue::value() only",
+    "EqualityInstructions/AssertionInstructions for AssignedVector and [AssignedByte; N] (implemented by VectorGadget / NativeGadget, not forwarded by ZkStdLib)",
+    "ComparisonInstructions / UnsafeConversionInstructions on ZkStdLib itself (not implemented by the façade; reached through jubjub().native_gadget())",
+    "ConversionInstructions::convert_value (off-circuit helper, no constraints: outside this property)",
+    "MapGadget with a tree over another hash (ZkStdLib fixes Poseidon)",
+];
 
 #[derive(Clone)]
-struct IsZero;
-impl OpSpec for IsZero {
-    type In = F;
-    fn name(&self) -> String {
-        "is_zero".into()
-    }
-    fn synth(&self, s: &ZkStdLib, l: &mut impl Layouter<F>, x: Value<F>) -> Result<(), Error> {
-        let x: AssignedNative<F> = s.assign(l, x)?;
-        s.constrain_as_public_input(l, &x)?;
-        let b: AssignedBit<F> = s.is_zero(l, &x)?;
-        s.constrain_as_public_input(l, &b)
-    }
-    fn reference(&self, x: &F) -> Option<Vec<F>> {
-        Some(vec![*x, bit(*x == F::ZERO)])
-    }
-    fn n_input_positions(&self, _: &F) -> usize {
-        1
-    }
+struct Config {
+    max_bit_len: u8,
+    cols: u8,
+    /// thorough catalogue + 25 inputs + thorough ARS budget
+    deep: bool,
+    /// only entries that go through the range-check chip
+    range_only: bool,
 }
 
-#[derive(Clone)]
-struct LowerThan(u32);
-impl OpSpec for LowerThan {
-    type In = (F, F);
-    fn name(&self) -> String {
-        format!("lower_than[{}]", self.0)
-    }
-    fn synth(&self, s: &ZkStdLib, l: &mut impl Layouter<F>, w: Value<(F, F)>) -> Result<(), Error> {
-        let x: AssignedNative<F> = s.assign(l, w.map(|w| w.0))?;
-        let y: AssignedNative<F> = s.assign(l, w.map(|w| w.1))?;
-        s.constrain_as_public_input(l, &x)?;
-        s.constrain_as_public_input(l, &y)?;
-        let b = s.lower_than(l, &x, &y, self.0)?;
-        s.constrain_as_public_input(l, &b)
-    }
-    fn reference(&self, (x, y): &(F, F)) -> Option<Vec<F>> {
-        let bound = BigUint::from(1u8) << self.0;
-        if big(x) >= bound || big(y) >= bound {
-            return None;
+struct Job {
+    idx: usize,
+    key: String,
+    entry: Entry,
+    inputs: Vec<Vec<V>>,
+    opts: OpOptions,
+    deep: bool,
+    weight: usize,
+}
+
+struct JobOut {
+    idx: usize,
+    key: String,
+    trait_name: &'static str,
+    stats: OpStats,
+    extra: ExtraStats,
+    part: Report,
+}
+
+fn run_job(job: &Job, seed: u64, proto: &Report) -> JobOut {
+    let run_all = |part: &mut Report| {
+        let st = check_op(&job.entry, &job.inputs, &job.opts, seed, part);
+        let ex = run_extra(&job.entry, &job.inputs, job.opts.max_bit_len, job.deep, seed, part);
+        (st, ex)
+    };
+    let mut part = proto.fork();
+    let (stats, extra) = run_all(&mut part);
+    if !part.violations.is_empty() {
+        // re-execute the case once before reporting (BUILDERS.md); keep what reproduces
+        let mut again = proto.fork();
+        let _ = run_all(&mut again);
+        let sigs: BTreeSet<String> = again.violations.iter().map(|v| v.signature.clone()).collect();
+        let all = std::mem::take(&mut part.violations);
+        for v in all {
+            if sigs.contains(&v.signature) {
+                part.violations.push(v);
+            } else {
+                part.inconclusive(&format!("violation {} did not reproduce on re-execution", v.signature));
+            }
         }
-        Some(vec![*x, *y, bit(big(x) < big(y))])
     }
-    fn n_input_positions(&self, _: &(F, F)) -> usize {
-        2
-    }
-}
-
-#[derive(Clone)]
-struct Mul;
-impl OpSpec for Mul {
-    type In = (F, F);
-    fn name(&self) -> String {
-        "mul".into()
-    }
-    fn synth(&self, s: &ZkStdLib, l: &mut impl Layouter<F>, w: Value<(F, F)>) -> Result<(), Error> {
-        let x: AssignedNative<F> = s.assign(l, w.map(|w| w.0))?;
-        let y: AssignedNative<F> = s.assign(l, w.map(|w| w.1))?;
-        s.constrain_as_public_input(l, &x)?;
-        s.constrain_as_public_input(l, &y)?;
-        let z = s.mul(l, &x, &y, None)?;
-        s.constrain_as_public_input(l, &z)
-    }
-    fn reference(&self, (x, y): &(F, F)) -> Option<Vec<F>> {
-        Some(vec![*x, *y, *x * *y])
-    }
-    fn n_input_positions(&self, _: &(F, F)) -> usize {
-        2
-    }
-    fn extra_targets(&self, _: usize, h: F) -> Vec<F> {
-        vec![-h]
-    }
+    JobOut { idx: job.idx, key: job.key.clone(), trait_name: job.entry.kind.trait_name(), stats, extra, part }
 }
 
 fn main() {
-    let ctx = Ctx::from_args("C04");
+    let mut ctx = Ctx::from_args("C04");
+    // --replay <file>: re-run exactly the recorded (operation, input)
+    let mut replay: Option<(String, Option<Vec<V>>)> = None;
+    if let Some(path) = ctx.replay.clone() {
+        match load_replay(&path) {
+            Some(j) => {
+                if let Some(s) = j.get("seed").and_then(|s| s.as_u64()) {
+                    ctx.seed = s;
+                }
+                if j.get("tier").and_then(|t| t.as_str()) == Some("thorough") {
+                    ctx.tier = Tier::Thorough;
+                }
+                let w = &j["witness"];
+                let op = w["op"].as_str().unwrap_or("").to_string();
+                let input = w["input"].as_str().or(w["base_input"].as_str()).and_then(V::parse_list);
+                replay = Some((op, input));
+            }
+            None => {
+                eprintln!("cannot read replay file {}", path.display());
+                std::process::exit(2);
+            }
+        }
+    }
     let mut rep = Report::new(
         &ctx,
-        "case = (operation, input): honest run must be accepted with instance = reference(input); every output position edited must be rejected; \
-         out-of-domain inputs must be unsatisfiable; ARS searches for an adversarial assignment towards each edited output. Non-trivial = distinct (operation, input).",
+        "case = (catalogue entry, input, max_bit_len, nr_pow2range_cols): the honest run must be accepted (reference evaluator and MockProver) with instance = reference(input) \
+         written from the trait documentation over BigUint/bool/bytes; every output position edited (+1, 0, complement, negation, other values of the case) must be rejected; \
+         inputs outside the documented domain must be unsatisfiable (synthesis panic/error counts as rejection, and the constraints are attacked from an admissible run); \
+         the adversarial repair search (single edited outputs, alternative encodings x+p, wrap-around quotients, cross-input claims) must find no assignment that MockProver and \
+         (k<=12) the real verifier accept. Non-trivial = distinct (operation, input) whose honest run was accepted, or out-of-domain input that was rejected.",
     );
+    rep.assume("ARS is a bounded heuristic search: 'held' = no attack within the node budget from the listed targets");
+    rep.assume("vector contents are only observable through get_limits/padding_flag/value() from outside the crate (buffer cells are pub(crate))");
+    rep.assume("map reference = circuits::map::cpu::MapMt over the repository's Poseidon (DESIGN names it as the reference for the map)");
     let thorough = ctx.tier == Tier::Thorough;
-    let opts = OpOptions::new("C04", thorough);
-    let mut rng = ctx.rng("c04");
-    let mut stats = BTreeMap::new();
-    let fs = |rng: &mut rand_chacha::ChaCha8Rng| vec![F::ZERO, F::ONE, -F::ONE, F::from(5), F::from(6), F::random(&mut *rng)];
-    let xs = fs(&mut rng);
-    stats.insert("is_equal_to_fixed".to_string(), check_op(&IsEqFixed(5), &xs, &opts, ctx.seed, &mut rep));
-    stats.insert("is_zero".to_string(), check_op(&IsZero, &xs, &opts, ctx.seed, &mut rep));
-    let pairs: Vec<(F, F)> = vec![
-        (F::from(3), F::from(7)),
-        (F::from(7), F::from(3)),
-        (F::from(7), F::from(7)),
-        (F::from(65535), F::from(0)),
-        (F::from(0), F::from(65535)),
-        (F::from(65536), F::from(1)),
-        (F::from(1), -F::ONE),
-        (F::from(rng.gen::<u16>() as u64), F::from(rng.gen::<u16>() as u64)),
-    ];
-    stats.insert("lower_than".to_string(), check_op(&LowerThan(16), &pairs, &opts, ctx.seed, &mut rep));
-    stats.insert("mul".to_string(), check_op(&Mul, &pairs, &opts, ctx.seed, &mut rep));
+
+    let configs: Vec<Config> = if thorough {
+        vec![
+            Config { max_bit_len: 8, cols: 1, deep: true, range_only: false },
+            Config { max_bit_len: 10, cols: 1, deep: false, range_only: false },
+            Config { max_bit_len: 13, cols: 1, deep: false, range_only: false },
+            Config { max_bit_len: 8, cols: 2, deep: false, range_only: true },
+            Config { max_bit_len: 8, cols: 3, deep: false, range_only: true },
+            Config { max_bit_len: 8, cols: 4, deep: false, range_only: true },
+            Config { max_bit_len: 10, cols: 4, deep: false, range_only: true },
+            Config { max_bit_len: 13, cols: 2, deep: false, range_only: true },
+        ]
+    } else {
+        vec![Config { max_bit_len: 8, cols: 1, deep: false, range_only: false }]
+    };
+
+    // ---- jobs ----
+    let mut jobs: Vec<Job> = vec![];
+    let mut entries_json = vec![];
+    let mut per_trait: BTreeMap<&'static str, BTreeSet<String>> = BTreeMap::new();
+    for (ci, cfg) in configs.iter().enumerate() {
+        for kind in cat::catalogue(cfg.deep) {
+            if cfg.range_only && !kind.uses_range_checks() {
+                continue;
+            }
+            let label = kind.label();
+            let mut rng = ctx.rng(&format!("inputs-{label}"));
+            let mut inputs = cat::inputs_for(&kind, cfg.deep, &mut rng);
+            let entry = Entry { kind: kind.clone(), cols: cfg.cols };
+            if let Some((op, inp)) = &replay {
+                if entry.kind.name() != *op {
+                    continue;
+                }
+                if let Some(x) = inp {
+                    if !entry.fits(x) {
+                        continue;
+                    }
+                    inputs = vec![x.clone()];
+                }
+            }
+            let mut opts = OpOptions::new("C04", cfg.deep);
+            opts.max_bit_len = cfg.max_bit_len;
+            if matches!(kind, Kind::MapGet | Kind::MapInsert) {
+                // large circuits (k >= 13): keep the search affordable
+                opts.ars = Some(ArsBudget { restarts: if cfg.deep { 16 } else { 6 }, nodes_per_restart: 2000, max_changed: 24 });
+            }
+            if ci == 0 {
+                entries_json.push(json!({"entry": label, "trait": kind.trait_name(), "signature_name": kind.name(), "inputs": inputs.len()}));
+            }
+            per_trait.entry(kind.trait_name()).or_default().insert(label.clone());
+            let weight = entry_weight(&entry, &inputs);
+            jobs.push(Job {
+                idx: jobs.len(),
+                key: format!("{label} @mbl={},cols={}", cfg.max_bit_len, cfg.cols),
+                entry,
+                inputs,
+                opts,
+                deep: cfg.deep,
+                weight,
+            });
+        }
+    }
+    let planned_inputs: usize = jobs.iter().map(|j| j.inputs.len()).sum();
+    if replay.is_none() {
+        rep.min_nontrivial = (planned_inputs / 2) as u64;
+    }
+
+    // ---- run: plain OS threads (the real prover's thread-local fault plan and rayon's work
+    // stealing do not mix: a rayon worker that blocks inside `prove` could start another
+    // operation on the same thread); inner parallelism stays on the global rayon pool ----
+    let order: Vec<usize> = {
+        let mut o: Vec<usize> = (0..jobs.len()).collect();
+        o.sort_by_key(|i| std::cmp::Reverse(jobs[*i].weight));
+        o
+    };
+    let next = AtomicUsize::new(0);
+    let outs: Mutex<Vec<JobOut>> = Mutex::new(vec![]);
+    let n_threads = std::thread::available_parallelism().map(|n| n.get()).unwrap_or(8).min(32);
+    let progress = std::env::var("MZV_PROGRESS").is_ok();
+    std::thread::scope(|s| {
+        for t in 0..n_threads {
+            let (jobs, order, next, outs, rep, seed) = (&jobs, &order, &next, &outs, &rep, ctx.seed);
+            std::thread::Builder::new()
+                .name(format!("c04-{t}"))
+                .stack_size(64 << 20)
+                .spawn_scoped(s, move || loop {
+                    let i = next.fetch_add(1, Ordering::SeqCst);
+                    if i >= order.len() {
+                        break;
+                    }
+                    let job = &jobs[order[i]];
+                    let t0 = std::time::Instant::now();
+                    let out = run_job(job, seed, rep);
+                    if progress {
+                        eprintln!("[c04] {:>4}/{} {:6.1}s {}", i + 1, order.len(), t0.elapsed().as_secs_f64(), job.key);
+                    }
+                    outs.lock().unwrap().push(out);
+                })
+                .expect("spawn worker");
+        }
+    });
+    let mut outs = outs.into_inner().unwrap();
+    outs.sort_by_key(|o| o.idx);
+
+    // ---- merge ----
+    let mut stats: BTreeMap<String, OpStats> = BTreeMap::new();
+    let mut extra_json = serde_json::Map::new();
+    let mut tot = OpStats::default();
+    let mut tot_extra = ExtraStats::default();
+    let mut honest_per_trait: BTreeMap<&'static str, u64> = BTreeMap::new();
+    for o in outs {
+        tot.honest_runs += o.stats.honest_runs;
+        tot.edits += o.stats.edits;
+        tot.out_of_domain += o.stats.out_of_domain;
+        tot.ars_targets += o.stats.ars_targets;
+        tot.ars_nodes += o.stats.ars_nodes;
+        tot.ars_candidates_wrong_output += o.stats.ars_candidates_wrong_output;
+        tot.ars_candidates_same_output += o.stats.ars_candidates_same_output;
+        tot_extra.alt_targets += o.extra.alt_targets;
+        tot_extra.cross_targets += o.extra.cross_targets;
+        tot_extra.ood_targets += o.extra.ood_targets;
+        tot_extra.nodes += o.extra.nodes;
+        tot_extra.candidates += o.extra.candidates;
+        *honest_per_trait.entry(o.trait_name).or_default() += o.stats.honest_runs;
+        if o.extra.alt_targets + o.extra.cross_targets + o.extra.ood_targets > 0 {
+            extra_json.insert(
+                o.key.clone(),
+                json!({"alt": o.extra.alt_targets, "cross": o.extra.cross_targets, "ood": o.extra.ood_targets, "nodes": o.extra.nodes, "candidates": o.extra.candidates}),
+            );
+        }
+        stats.insert(o.key, o.stats);
+        rep.merge(o.part);
+    }
+    // per-name counters of the driver are redundant with per_operation: keep the evidence small
+    rep.counters.retain(|k, _| !(k.ends_with(".honest_runs") || k.ends_with(".edits") || k.ends_with(".ars_targets") || k.ends_with(".ars_nodes")));
+    for (t, set) in &per_trait {
+        if honest_per_trait.get(t).copied().unwrap_or(0) == 0 && replay.is_none() {
+            rep.inconclusive(&format!("trait {t}: {} planned entries, no honest run executed", set.len()));
+            rep.min_nontrivial = u64::MAX;
+        }
+    }
     rep.set("per_operation", stats_json(&stats));
+    rep.set("extra_attacks_per_operation", serde_json::Value::Object(extra_json));
+    rep.set("catalogue_entries", json!(entries_json));
+    rep.set(
+        "entries_per_trait",
+        json!(per_trait.iter().map(|(t, s)| (t.to_string(), json!({"entries": s.len(), "honest_runs": honest_per_trait.get(t).copied().unwrap_or(0)}))).collect::<BTreeMap<_, _>>()),
+    );
+    rep.set(
+        "configurations",
+        json!(configs.iter().map(|c| json!({"max_bit_len": c.max_bit_len, "nr_pow2range_cols": c.cols, "deep": c.deep, "range_only": c.range_only})).collect::<Vec<_>>()),
+    );
+    rep.set(
+        "ars_totals",
+        json!({"targets": tot.ars_targets, "nodes": tot.ars_nodes, "candidates_wrong_output": tot.ars_candidates_wrong_output,
+               "extra_alt_targets": tot_extra.alt_targets, "extra_cross_targets": tot_extra.cross_targets, "extra_ood_targets": tot_extra.ood_targets,
+               "extra_nodes": tot_extra.nodes, "extra_candidates": tot_extra.candidates}),
+    );
+    rep.set("totals", json!({"jobs": stats.len(), "planned_inputs": planned_inputs, "honest_runs": tot.honest_runs, "output_edits": tot.edits, "out_of_domain_inputs": tot.out_of_domain}));
+    rep.set("unreachable", json!(UNREACHABLE));
+    rep.set("threads", json!(n_threads));
     rep.finish();
+}
+
+/// rough cost of an entry (instance size; the map circuits are the largest) for load balancing
+fn entry_weight(entry: &Entry, inputs: &[Vec<V>]) -> usize {
+    let base = inputs.first().and_then(|x| entry.reference(x)).map(|v| v.len()).unwrap_or(1);
+    let mul = match entry.kind {
+        Kind::MapInsert => 400,
+        Kind::MapGet => 200,
+        _ => 1,
+    };
+    (base * inputs.len().max(1) + 1) * mul
 }
